@@ -83,6 +83,17 @@ def run(ctx):
                 except Exception as e:  # noqa
                     ctx.fail('C13/exception', f'value-and-gradient function raised {type(e).__name__}', inp, str(e)[:200]); continue
                 ctx.count()
+                # evaluating again, on one and the same backend tensor, must give the same gradient (and leave the earlier result alone)
+                try:
+                    xt = tl.astensor(np.asarray(x0, dtype=np.float64))
+                    g_first = np.array(tl.tolist(kw['func'](xt)[1]), dtype=float)
+                    r2 = kw['func'](xt); r3 = kw['func'](xt)
+                    g_again = np.array(tl.tolist(r3[1]), dtype=float); g_second = np.array(tl.tolist(r2[1]), dtype=float)
+                    if not (np.allclose(g_first, grad, rtol=1e-9, atol=1e-12) and np.allclose(g_again, grad, rtol=1e-9, atol=1e-12) and np.allclose(g_second, grad, rtol=1e-9, atol=1e-12)):
+                        ctx.fail('C13/repeated-evaluation', 'the gradient changes when the value-and-gradient function is evaluated again at the same point (same tensor object)', inp,
+                                 [g_first.tolist(), g_second.tolist(), g_again.tolist()], grad.tolist())
+                except Exception as e:  # noqa
+                    ctx.fail('C13/exception', f'repeated evaluation of the value-and-gradient function raised {type(e).__name__}', inp, str(e)[:200])
                 pyhf_np = float(-2 * np.asarray(tl.tolist(m.logpdf(tl.astensor(np.asarray(p)), tl.astensor(np.asarray(data)))))[0])
                 if not abs(val - pyhf_np) <= 1e-9 * (1 + abs(pyhf_np)):
                     ctx.fail('C13/value', 'objective of the differentiating path differs from the non-differentiating path', inp, val, pyhf_np)
